@@ -534,6 +534,25 @@ func (p *c06) Init(tier string, seed int64) {
 			f := &gen.NFor{Val: "v", Seq: nm("seq"), Body: []gen.Node{tx("x")}, HasElse: true, Else: []gen.Node{tx("E")}}
 			return mkProg(map[string]interface{}{"seq": v}, tx("<"), f, tx(">")), fmt.Sprintf("for/noniterable/%d", ni)
 		})
+		// ... whatever the loop would have done with the elements: nothing at all, say
+		for shape := 0; shape < 5; shape++ {
+			shape := shape
+			p.enum = append(p.enum, func() (*Program, string) {
+				f := &gen.NFor{Val: "v", Seq: nm("seq")}
+				cm := func() []gen.Node { return []gen.Node{&gen.NComment{S: " nothing yet "}} }
+				switch shape {
+				case 1:
+					f.Body = cm()
+				case 2:
+					f.HasElse = true
+				case 3:
+					f.Body, f.HasElse, f.Else = cm(), true, cm()
+				case 4:
+					f.Key, f.Body = "k", []gen.Node{&gen.NComment{S: " a "}, &gen.NComment{S: " b "}}
+				}
+				return mkProg(map[string]interface{}{"seq": v}, tx("<"), f, tx(">")), fmt.Sprintf("for/noniterable/%d/empty-body-%d", ni, shape)
+			})
+		}
 	}
 }
 
